@@ -1,7 +1,635 @@
-//! C15 — not built yet.
-use lv_common::Ctx;
+//! C15 — Shwap identifiers and CIDs are bijective over valid ids (celestia-types part).
+//!
+//! Five id types: EdsId (8 bytes), RowId (10), SampleId (12), NamespaceDataId (37), RowNamespaceDataId (39);
+//! RowId, SampleId and RowNamespaceDataId also have CID forms (codec / multihash code pairs 0x7800/0x7801,
+//! 0x7810/0x7811, 0x7820/0x7821).
+//!
+//! Oracle:
+//!  * valid id (height >= 1): decode(encode(id)) == id, accessors return the constructor's arguments, the
+//!    encoding is the Shwap layout (big-endian height || row || column|namespace — written in the harness) and
+//!    `Id::try_from(Cid::from(id)) == id`, also after a trip through the CID's binary form;
+//!  * corrupted encoding: decode is Err, or yields an id whose re-encoding is exactly the corrupted bytes
+//!    (landing on another valid id is legal, silent normalisation is not);
+//!  * wrong length, zero height, invalid namespace, wrong codec, wrong multihash code, wrong multihash length: Err.
+use bytes::BytesMut;
+use celestia_types::eds::EdsId;
+use celestia_types::namespace_data::NamespaceDataId;
+use celestia_types::nmt::Namespace;
+use celestia_types::row::RowId;
+use celestia_types::row_namespace_data::RowNamespaceDataId;
+use celestia_types::sample::SampleId;
+use cid::CidGeneric;
+use lv_common::prelude::*;
+use multihash::Multihash;
 
-pub fn run(_ctx: &mut Ctx) {
-    eprintln!("C15: check not built yet");
-    std::process::exit(2);
+use crate::c14::{NsSpec, ns_spec_strategy, ref_from_raw};
+
+type Cid = CidGeneric<64>;
+
+#[derive(Clone, Copy, Debug, PartialEq, Eq, Serialize, Deserialize)]
+pub enum Ty {
+    Eds,
+    Row,
+    Sample,
+    NsData,
+    RowNsData,
+}
+
+const ALL: [Ty; 5] = [Ty::Eds, Ty::Row, Ty::Sample, Ty::NsData, Ty::RowNsData];
+
+impl Ty {
+    fn name(self) -> &'static str {
+        match self {
+            Ty::Eds => "eds",
+            Ty::Row => "row",
+            Ty::Sample => "sample",
+            Ty::NsData => "nsdata",
+            Ty::RowNsData => "rownsdata",
+        }
+    }
+    fn size(self) -> usize {
+        match self {
+            Ty::Eds => 8,
+            Ty::Row => 10,
+            Ty::Sample => 12,
+            Ty::NsData => 37,
+            Ty::RowNsData => 39,
+        }
+    }
+    /// (cid codec, multihash code) from the Shwap specification
+    fn codec(self) -> Option<(u64, u64)> {
+        match self {
+            Ty::Row => Some((0x7800, 0x7801)),
+            Ty::Sample => Some((0x7810, 0x7811)),
+            Ty::RowNsData => Some((0x7820, 0x7821)),
+            _ => None,
+        }
+    }
+    /// offset of the namespace inside the encoding
+    fn ns_at(self) -> Option<usize> {
+        match self {
+            Ty::NsData => Some(8),
+            Ty::RowNsData => Some(10),
+            _ => None,
+        }
+    }
+}
+
+#[derive(Clone, Debug, PartialEq)]
+struct Fields {
+    height: u64,
+    row: u16,
+    col: u16,
+    ns: [u8; 29],
+}
+
+/// Shwap layout, written independently of the code under test
+fn ref_encode(ty: Ty, f: &Fields) -> Vec<u8> {
+    let mut v = f.height.to_be_bytes().to_vec();
+    match ty {
+        Ty::Eds => {}
+        Ty::Row => v.extend_from_slice(&f.row.to_be_bytes()),
+        Ty::Sample => {
+            v.extend_from_slice(&f.row.to_be_bytes());
+            v.extend_from_slice(&f.col.to_be_bytes());
+        }
+        Ty::NsData => v.extend_from_slice(&f.ns),
+        Ty::RowNsData => {
+            v.extend_from_slice(&f.row.to_be_bytes());
+            v.extend_from_slice(&f.ns);
+        }
+    }
+    v
+}
+
+/// reference validity of an encoding (from the statement): right length, height >= 1, valid namespace
+fn ref_valid(ty: Ty, b: &[u8]) -> bool {
+    if b.len() != ty.size() {
+        return false;
+    }
+    if b[..8].iter().all(|x| *x == 0) {
+        return false;
+    }
+    match ty.ns_at() {
+        Some(at) => ref_from_raw(&b[at..at + 29]).is_some(),
+        None => true,
+    }
+}
+
+/// type-erased decoded id
+#[derive(Debug, Clone, PartialEq)]
+enum AnyId {
+    Eds(EdsId),
+    Row(RowId),
+    Sample(SampleId),
+    NsData(NamespaceDataId),
+    RowNsData(RowNamespaceDataId),
+}
+
+impl AnyId {
+    fn new(ty: Ty, f: &Fields) -> Result<AnyId, String> {
+        let ns = || Namespace::from_raw(&f.ns).map_err(|e| e.to_string());
+        Ok(match ty {
+            Ty::Eds => AnyId::Eds(EdsId::new(f.height).map_err(|e| e.to_string())?),
+            Ty::Row => AnyId::Row(RowId::new(f.row, f.height).map_err(|e| e.to_string())?),
+            Ty::Sample => AnyId::Sample(SampleId::new(f.row, f.col, f.height).map_err(|e| e.to_string())?),
+            Ty::NsData => AnyId::NsData(NamespaceDataId::new(ns()?, f.height).map_err(|e| e.to_string())?),
+            Ty::RowNsData => AnyId::RowNsData(RowNamespaceDataId::new(ns()?, f.row, f.height).map_err(|e| e.to_string())?),
+        })
+    }
+    fn decode(ty: Ty, b: &[u8]) -> Result<AnyId, String> {
+        Ok(match ty {
+            Ty::Eds => AnyId::Eds(EdsId::decode(b).map_err(|e| e.to_string())?),
+            Ty::Row => AnyId::Row(RowId::decode(b).map_err(|e| e.to_string())?),
+            Ty::Sample => AnyId::Sample(SampleId::decode(b).map_err(|e| e.to_string())?),
+            Ty::NsData => AnyId::NsData(NamespaceDataId::decode(b).map_err(|e| e.to_string())?),
+            Ty::RowNsData => AnyId::RowNsData(RowNamespaceDataId::decode(b).map_err(|e| e.to_string())?),
+        })
+    }
+    fn encode(&self) -> Vec<u8> {
+        let mut b = BytesMut::new();
+        match self {
+            AnyId::Eds(i) => i.encode(&mut b),
+            AnyId::Row(i) => i.encode(&mut b),
+            AnyId::Sample(i) => i.encode(&mut b),
+            AnyId::NsData(i) => i.encode(&mut b),
+            AnyId::RowNsData(i) => i.encode(&mut b),
+        }
+        b.to_vec()
+    }
+    /// what the accessors report, in the harness' field record (unused fields copied from `like`)
+    fn fields(&self, like: &Fields) -> Fields {
+        let mut f = like.clone();
+        match self {
+            AnyId::Eds(i) => f.height = i.block_height(),
+            AnyId::Row(i) => {
+                f.height = i.block_height();
+                f.row = i.index();
+            }
+            AnyId::Sample(i) => {
+                f.height = i.block_height();
+                f.row = i.row_index();
+                f.col = i.column_index();
+            }
+            AnyId::NsData(i) => {
+                f.height = i.block_height();
+                f.ns = i.namespace().as_bytes().try_into().unwrap();
+            }
+            AnyId::RowNsData(i) => {
+                f.height = i.block_height();
+                f.row = i.row_index();
+                f.ns = i.namespace().as_bytes().try_into().unwrap();
+            }
+        }
+        f
+    }
+    fn to_cid(&self) -> Option<Cid> {
+        fn widen<const S: usize>(c: CidGeneric<S>) -> Cid {
+            Cid::new_v1(c.codec(), Multihash::<64>::wrap(c.hash().code(), c.hash().digest()).unwrap())
+        }
+        match self {
+            AnyId::Row(i) => Some(widen(CidGeneric::from(*i))),
+            AnyId::Sample(i) => Some(widen(CidGeneric::from(*i))),
+            AnyId::RowNsData(i) => Some(widen(CidGeneric::from(*i))),
+            _ => None,
+        }
+    }
+    fn from_cid(ty: Ty, c: &Cid) -> Option<Result<AnyId, String>> {
+        match ty {
+            Ty::Row => Some(RowId::try_from(*c).map(AnyId::Row).map_err(|e| e.to_string())),
+            Ty::Sample => {
+                // the by-reference, by-mut-reference and by-value conversions must agree
+                let by_ref = SampleId::try_from(c).map_err(|e| e.to_string());
+                let mut m = *c;
+                let by_mut = SampleId::try_from(&mut m).map_err(|e| e.to_string());
+                let by_val = SampleId::try_from(*c).map_err(|e| e.to_string());
+                // (a disagreement surfaces as a failure with a panic signature)
+                assert!(by_ref == by_mut && by_ref == by_val, "C15: SampleId conversions disagree: &cid {by_ref:?}, &mut cid {by_mut:?}, cid {by_val:?}");
+                Some(by_ref.map(AnyId::Sample))
+            }
+            Ty::RowNsData => Some(RowNamespaceDataId::try_from(*c).map(AnyId::RowNsData).map_err(|e| e.to_string())),
+            _ => None,
+        }
+    }
+}
+
+#[derive(Clone, Debug, Serialize, Deserialize)]
+pub enum Corr {
+    /// byte at (selected) position xor mask (mask != 0)
+    Xor { pos: u16, mask: u8 },
+    /// byte at position set to value
+    Set { pos: u16, val: u8 },
+    /// height field replaced
+    Height(u64),
+    /// namespace version byte replaced
+    NsVersion(u8),
+    /// one byte of the namespace's mandatory prefix replaced
+    NsPrefix { pos: u16, val: u8 },
+    /// namespace replaced by 29 arbitrary bytes
+    NsRandom([u8; 29]),
+    /// truncate by n bytes / append bytes
+    Truncate(u8),
+    Append(Vec<u8>),
+}
+
+#[derive(Clone, Debug, Serialize, Deserialize)]
+pub enum CidCorr {
+    Codec(u64),
+    /// the codec of another id type
+    CodecOf(Ty),
+    MhCode(u64),
+    MhCodeOf(Ty),
+    /// codec and multihash code both of another type (a fully valid CID of the wrong kind)
+    BothOf(Ty),
+    /// digest truncated / extended (multihash length changes, codes stay right)
+    DigestTruncate(u8),
+    DigestAppend(Vec<u8>),
+    /// codec and multihash code swapped
+    SwapCodes,
+    /// a CIDv0 (dag-pb / sha2-256) holding the id bytes padded to 32
+    V0,
+}
+
+#[derive(Clone, Debug, Serialize, Deserialize)]
+pub struct Case {
+    pub height: u64,
+    pub row: u16,
+    pub col: u16,
+    pub ns: NsSpec,
+    pub corrs: Vec<Corr>,
+    pub cid_corrs: Vec<CidCorr>,
+}
+
+fn height_strategy() -> impl Strategy<Value = u64> {
+    prop_oneof![
+        2 => Just(1u64),
+        1 => Just(2u64),
+        1 => Just(255u64),
+        1 => Just(256u64),
+        1 => Just(1u64 << 32),
+        1 => Just((1u64 << 32) - 1),
+        1 => Just(1u64 << 63),
+        1 => Just((1u64 << 63) - 1),
+        1 => Just(u64::MAX),
+        1 => Just(1u64 << 56),
+        3 => 1u64..100_000,
+        4 => 1u64..=u64::MAX,
+    ]
+}
+
+fn idx_strategy() -> impl Strategy<Value = u16> {
+    prop_oneof![
+        2 => Just(0u16), 1 => Just(1u16), 1 => Just(255u16), 1 => Just(256u16), 1 => Just(1u16 << 15), 1 => Just(65535u16),
+        2 => 0u16..512, 3 => any::<u16>(),
+    ]
+}
+
+fn corr_strategy() -> impl Strategy<Value = Corr> {
+    prop_oneof![
+        4 => (any::<u16>(), prop_oneof![Just(1u8), Just(0x80u8), 1u8..=255]).prop_map(|(pos, mask)| Corr::Xor { pos, mask }),
+        2 => (any::<u16>(), prop_oneof![Just(0u8), Just(0xffu8), any::<u8>()]).prop_map(|(pos, val)| Corr::Set { pos, val }),
+        2 => prop_oneof![3 => Just(0u64), 1 => any::<u64>()].prop_map(Corr::Height),
+        2 => prop_oneof![Just(1u8), Just(254u8), Just(0u8), Just(255u8), any::<u8>()].prop_map(Corr::NsVersion),
+        2 => (any::<u16>(), any::<u8>()).prop_map(|(pos, val)| Corr::NsPrefix { pos, val }),
+        1 => any::<[u8; 29]>().prop_map(Corr::NsRandom),
+        2 => (1u8..12).prop_map(Corr::Truncate),
+        2 => prop::collection::vec(any::<u8>(), 1..4).prop_map(Corr::Append),
+    ]
+}
+
+fn ty_strategy() -> impl Strategy<Value = Ty> {
+    prop_oneof![Just(Ty::Row), Just(Ty::Sample), Just(Ty::RowNsData)]
+}
+
+fn cid_corr_strategy() -> impl Strategy<Value = CidCorr> {
+    prop_oneof![
+        2 => prop_oneof![Just(0x55u64), Just(0x70u64), Just(0x71u64), Just(0x7701u64), Just(0u64), any::<u64>(), 0x7800u64..0x7830].prop_map(CidCorr::Codec),
+        2 => ty_strategy().prop_map(CidCorr::CodecOf),
+        2 => prop_oneof![Just(0x12u64), Just(0x00u64), Just(0x7700u64), any::<u64>(), 0x7800u64..0x7830].prop_map(CidCorr::MhCode),
+        2 => ty_strategy().prop_map(CidCorr::MhCodeOf),
+        2 => ty_strategy().prop_map(CidCorr::BothOf),
+        2 => (1u8..40).prop_map(CidCorr::DigestTruncate),
+        2 => prop::collection::vec(any::<u8>(), 1..20).prop_map(CidCorr::DigestAppend),
+        1 => Just(CidCorr::SwapCodes),
+        1 => Just(CidCorr::V0),
+    ]
+}
+
+fn case_strategy() -> impl Strategy<Value = Case> {
+    (
+        height_strategy(),
+        idx_strategy(),
+        idx_strategy(),
+        ns_spec_strategy(),
+        prop::collection::vec(corr_strategy(), 4..10),
+        prop::collection::vec(cid_corr_strategy(), 3..8),
+    )
+        .prop_map(|(height, row, col, ns, corrs, cid_corrs)| Case { height, row, col, ns, corrs, cid_corrs })
+}
+
+/// decode of a corrupted encoding: Err, or an id that re-encodes to exactly these bytes
+fn judge_corrupted(obs: &mut Obs, ty: Ty, honest: &[u8], cor: &[u8], kind: &str) -> Result<(), Failure> {
+    if cor == honest {
+        obs.label("corruption-was-noop");
+        return Ok(());
+    }
+    obs.eval(Some(digest_bytes(cor) ^ (ty as u64) << 56));
+    let valid = ref_valid(ty, cor);
+    match AnyId::decode(ty, cor) {
+        Err(_) => {
+            obs.label(&format!("{kind}-rejected"));
+            // completeness over valid ids: a corrupted encoding that is itself a valid id must decode
+            if valid {
+                obs.fail(
+                    "C15:valid-encoding-rejected",
+                    format!("{}: {cor:02x?} is a valid encoding (right length, height >= 1, valid namespace) but decode rejected it", ty.name()),
+                )?;
+            }
+        }
+        Ok(id) => {
+            let re = id.encode();
+            obs.check(re == cor, "C15:decode-normalises", || {
+                format!("{}: decode of the corrupted bytes {cor:02x?} ({kind}) succeeded but the id re-encodes to {re:02x?}", ty.name())
+            })?;
+            if !valid {
+                let why = if cor.len() != ty.size() {
+                    "C15:wrong-length-accepted"
+                } else if cor[..8].iter().all(|x| *x == 0) {
+                    "C15:zero-height-accepted"
+                } else {
+                    "C15:invalid-namespace-accepted"
+                };
+                obs.fail(why, format!("{}: decode accepted {cor:02x?} ({kind}), which is not a valid id encoding", ty.name()))?;
+            }
+            obs.label("corruption-lands-on-other-valid-id");
+        }
+    }
+    Ok(())
+}
+
+fn check_type(obs: &mut Obs, ty: Ty, c: &Case) -> Result<(), Failure> {
+    let f = Fields {
+        height: c.height,
+        row: c.row,
+        col: c.col,
+        ns: c.ns.bytes(),
+    };
+    let want = ref_encode(ty, &f);
+    // ---- valid id round trips
+    let id = AnyId::new(ty, &f).map_err(|e| Failure::new("C15:valid-id-rejected", format!("{}::new({f:?}) failed: {e}", ty.name())))?;
+    let bytes = id.encode();
+    obs.eval(Some(digest_bytes(&bytes) ^ (ty as u64) << 56));
+    obs.label(&format!("roundtrip-{}", ty.name()));
+    obs.check(bytes == want, "C15:encoding-layout", || {
+        format!("{}: encode({f:?}) = {bytes:02x?}, the Shwap layout (big-endian height||row||col|namespace) is {want:02x?}", ty.name())
+    })?;
+    obs.check(id.fields(&f) == f, "C15:accessors", || format!("{}: accessors of new({f:?}) report {:?}", ty.name(), id.fields(&f)))?;
+    match AnyId::decode(ty, &bytes) {
+        Ok(back) => obs.check(back == id && back.fields(&f) == f, "C15:bytes-roundtrip", || format!("{}: decode(encode(id)) = {back:?} != {id:?}", ty.name()))?,
+        Err(e) => obs.fail("C15:bytes-roundtrip", format!("{}: decode(encode({id:?})) failed: {e}", ty.name()))?,
+    }
+    // decode of the independently built encoding
+    match AnyId::decode(ty, &want) {
+        Ok(back) => obs.check(back == id, "C15:bytes-roundtrip", || format!("{}: decode(reference encoding of {f:?}) = {back:?}", ty.name()))?,
+        Err(e) => obs.fail("C15:valid-encoding-rejected", format!("{}: decode of the reference encoding {want:02x?} failed: {e}", ty.name()))?,
+    }
+    // ---- CID round trip
+    let cid = id.to_cid();
+    if let Some(cid) = &cid {
+        let (codec, code) = ty.codec().unwrap();
+        obs.label(&format!("cid-roundtrip-{}", ty.name()));
+        obs.check(
+            cid.codec() == codec && cid.hash().code() == code && cid.hash().digest() == &bytes[..] && cid.version() == cid::Version::V1,
+            "C15:cid-form",
+            || format!("{}: CID of {id:?} has codec {:#x} mh code {:#x} digest {:02x?}; expected {codec:#x}/{code:#x} and the id bytes", ty.name(), cid.codec(), cid.hash().code(), cid.hash().digest()),
+        )?;
+        match AnyId::from_cid(ty, cid).unwrap() {
+            Ok(back) => obs.check(back == id, "C15:cid-roundtrip", || format!("{}: Id::try_from(Cid::from(id)) = {back:?} != {id:?}", ty.name()))?,
+            Err(e) => obs.fail("C15:cid-roundtrip", format!("{}: Id::try_from(Cid::from({id:?})) failed: {e}", ty.name()))?,
+        }
+        // through the CID's binary and string forms
+        let wire = cid.to_bytes();
+        let back = Cid::read_bytes(&wire[..]).map_err(|e| Failure::new("gen", format!("cid bytes do not parse: {e}")))?;
+        match AnyId::from_cid(ty, &back).unwrap() {
+            Ok(b) => obs.check(b == id, "C15:cid-roundtrip", || format!("{}: id from re-read CID bytes = {b:?}", ty.name()))?,
+            Err(e) => obs.fail("C15:cid-roundtrip", format!("{}: id from re-read CID bytes failed: {e}", ty.name()))?,
+        }
+        // a CID of this type must not convert to the other two id types
+        for other in [Ty::Row, Ty::Sample, Ty::RowNsData] {
+            if other != ty {
+                obs.eval(Some(digest_bytes(&wire) ^ (other as u64) << 48));
+                match AnyId::from_cid(other, cid).unwrap() {
+                    Err(_) => obs.label("other-types-cid-rejected"),
+                    Ok(x) => obs.fail("C15:wrong-codec-accepted", format!("a {} CID converted to the {} id {x:?}", ty.name(), other.name()))?,
+                }
+            }
+        }
+    }
+
+    // ---- corrupted encodings
+    // systematic: zero height, length +-1, empty, every byte position with one mask
+    let mut zero_h = bytes.clone();
+    zero_h[..8].fill(0);
+    judge_corrupted(obs, ty, &bytes, &zero_h, "zero-height")?;
+    judge_corrupted(obs, ty, &bytes, &bytes[..bytes.len() - 1], "length")?;
+    judge_corrupted(obs, ty, &bytes, &bytes[1..], "length")?;
+    judge_corrupted(obs, ty, &bytes, &[], "length")?;
+    let mut longer = bytes.clone();
+    longer.push(0);
+    judge_corrupted(obs, ty, &bytes, &longer, "length")?;
+    // another type's encoding of the same fields
+    for other in ALL {
+        if other.size() != ty.size() {
+            judge_corrupted(obs, ty, &bytes, &ref_encode(other, &f), "length")?;
+        }
+    }
+    for p in 0..bytes.len() {
+        let mut cor = bytes.clone();
+        cor[p] ^= 1 << (p % 8);
+        judge_corrupted(obs, ty, &bytes, &cor, "byte")?;
+    }
+    for corr in &c.corrs {
+        let mut cor = bytes.clone();
+        let kind;
+        match corr {
+            Corr::Xor { pos, mask } => {
+                let p = pick(*pos, cor.len());
+                cor[p] ^= *mask;
+                kind = "byte";
+            }
+            Corr::Set { pos, val } => {
+                let p = pick(*pos, cor.len());
+                cor[p] = *val;
+                kind = "byte";
+            }
+            Corr::Height(h) => {
+                cor[..8].copy_from_slice(&h.to_be_bytes());
+                kind = if *h == 0 { "zero-height" } else { "height" };
+            }
+            Corr::NsVersion(v) => {
+                let Some(at) = ty.ns_at() else { continue };
+                cor[at] = *v;
+                kind = "namespace";
+            }
+            Corr::NsPrefix { pos, val } => {
+                let Some(at) = ty.ns_at() else { continue };
+                let plen = if cor[at] == 0 { 18 } else { 27 };
+                cor[at + 1 + pick(*pos, plen)] = *val;
+                kind = "namespace";
+            }
+            Corr::NsRandom(ns) => {
+                let Some(at) = ty.ns_at() else { continue };
+                cor[at..].copy_from_slice(ns);
+                kind = "namespace";
+            }
+            Corr::Truncate(n) => {
+                let n = (*n as usize).min(cor.len());
+                cor.truncate(cor.len() - n);
+                kind = "length";
+            }
+            Corr::Append(x) => {
+                cor.extend_from_slice(x);
+                kind = "length";
+            }
+        }
+        judge_corrupted(obs, ty, &bytes, &cor, kind)?;
+        // the same corrupted bytes inside an otherwise well-formed CID
+        if let Some((codec, code)) = ty.codec() {
+            if cor != bytes {
+                if let Ok(mh) = Multihash::<64>::wrap(code, &cor) {
+                    let ccid = Cid::new_v1(codec, mh);
+                    obs.eval(Some(digest_bytes(&ccid.to_bytes())));
+                    match AnyId::from_cid(ty, &ccid).unwrap() {
+                        Err(_) => {
+                            obs.label("cid-with-corrupted-digest-rejected");
+                            obs.check(!ref_valid(ty, &cor), "C15:valid-encoding-rejected", || format!("{}: CID with the valid digest {cor:02x?} rejected", ty.name()))?;
+                        }
+                        Ok(x) => {
+                            obs.check(x.encode() == cor && ref_valid(ty, &cor), "C15:decode-normalises", || {
+                                format!("{}: CID with the corrupted digest {cor:02x?} ({kind}) converted to {x:?}, which encodes to {:02x?}", ty.name(), x.encode())
+                            })?;
+                            obs.label("corruption-lands-on-other-valid-id");
+                        }
+                    }
+                }
+            }
+        }
+    }
+
+    // ---- corrupted CIDs
+    if let (Some(cid), Some((codec, code))) = (&cid, ty.codec()) {
+        for cc in &c.cid_corrs {
+            let mk = |codec: u64, code: u64, digest: &[u8]| Multihash::<64>::wrap(code, digest).ok().map(|mh| Cid::new_v1(codec, mh));
+            let (bad, label): (Option<Cid>, &str) = match cc {
+                CidCorr::Codec(x) => (if *x != codec { mk(*x, code, &bytes) } else { None }, "bad-codec"),
+                CidCorr::CodecOf(t) => (if *t != ty { mk(t.codec().unwrap().0, code, &bytes) } else { None }, "bad-codec"),
+                CidCorr::MhCode(x) => (if *x != code { mk(codec, *x, &bytes) } else { None }, "bad-mhcode"),
+                CidCorr::MhCodeOf(t) => (if *t != ty { mk(codec, t.codec().unwrap().1, &bytes) } else { None }, "bad-mhcode"),
+                CidCorr::BothOf(t) => (if *t != ty { mk(t.codec().unwrap().0, t.codec().unwrap().1, &bytes) } else { None }, "bad-codec"),
+                CidCorr::DigestTruncate(n) => {
+                    let n = (*n as usize).min(bytes.len());
+                    (mk(codec, code, &bytes[..bytes.len() - n]), "bad-mhlen")
+                }
+                CidCorr::DigestAppend(x) => {
+                    let mut d = bytes.clone();
+                    d.extend_from_slice(x);
+                    (mk(codec, code, &d), "bad-mhlen")
+                }
+                CidCorr::SwapCodes => (mk(code, codec, &bytes), "bad-codec"),
+                CidCorr::V0 => {
+                    let mut d = bytes.clone();
+                    d.resize(32, 0);
+                    (Multihash::<64>::wrap(0x12, &d).ok().and_then(|mh| Cid::new_v0(mh).ok()), "bad-codec")
+                }
+            };
+            let Some(bad) = bad else { continue };
+            if bad == *cid {
+                continue;
+            }
+            obs.eval(Some(digest_bytes(&bad.to_bytes()) ^ 0xc1d));
+            match AnyId::from_cid(ty, &bad).unwrap() {
+                Err(_) => obs.label(&format!("{label}-rejected")),
+                Ok(x) => {
+                    let sig = match label {
+                        "bad-codec" => "C15:wrong-codec-accepted",
+                        "bad-mhcode" => "C15:wrong-multihash-code-accepted",
+                        _ => "C15:wrong-multihash-length-accepted",
+                    };
+                    obs.fail(
+                        sig,
+                        format!("{}: CID with codec {:#x}, multihash code {:#x}, digest length {} ({cc:?}) converted to {x:?}", ty.name(), bad.codec(), bad.hash().code(), bad.hash().size()),
+                    )?;
+                }
+            }
+        }
+    }
+    Ok(())
+}
+
+pub fn run(ctx: &mut Ctx) {
+    ctx.assume("Shwap layout (big-endian height || row index || column index / namespace) and the codec / multihash-code constants are written in the harness from the Shwap specification (CIP-19)");
+    ctx.assume("convert_cid of lumina-node (node/src/p2p/shwap.rs) is covered by the node-side check, not here");
+    ctx.assume("a corruption that decodes to a different valid id is legal (DESIGN §7); what is asserted is Err or exact re-encoding");
+    let mut ess: Vec<String> = Vec::new();
+    for t in ALL {
+        ess.push(format!("roundtrip-{}", t.name()));
+    }
+    for t in [Ty::Row, Ty::Sample, Ty::RowNsData] {
+        ess.push(format!("cid-roundtrip-{}", t.name()));
+    }
+    for l in [
+        "byte-rejected",
+        "corruption-lands-on-other-valid-id",
+        "zero-height-rejected",
+        "length-rejected",
+        "namespace-rejected",
+        "bad-codec-rejected",
+        "bad-mhcode-rejected",
+        "bad-mhlen-rejected",
+        "other-types-cid-rejected",
+        "cid-with-corrupted-digest-rejected",
+    ] {
+        ess.push(l.to_string());
+    }
+    let ess_ref: Vec<&str> = ess.iter().map(|s| s.as_str()).collect();
+    ctx.essential(&ess_ref);
+
+    // zero height through the constructors (the statement quantifies valid ids over height >= 1)
+    ctx.enumerate(
+        "constructors",
+        "every constructor rejects height 0 and accepts height 1 / u64::MAX with boundary indices",
+        false,
+        vec![0u64, 1, u64::MAX],
+        |h, obs| {
+            let ns = Namespace::from_raw(&NsSpec::V0Low(0x1234).bytes()).unwrap();
+            for (row, col) in [(0u16, 0u16), (65535, 65535), (1 << 15, 1)] {
+                let rs = [
+                    ("EdsId", EdsId::new(*h).is_ok()),
+                    ("RowId", RowId::new(row, *h).is_ok()),
+                    ("SampleId", SampleId::new(row, col, *h).is_ok()),
+                    ("NamespaceDataId", NamespaceDataId::new(ns, *h).is_ok()),
+                    ("RowNamespaceDataId", RowNamespaceDataId::new(ns, row, *h).is_ok()),
+                ];
+                for (n, ok) in rs {
+                    obs.eval(Some(digest_bytes(n.as_bytes()) ^ *h ^ (row as u64) << 20));
+                    obs.check(ok == (*h != 0), "C15:zero-height-accepted", || format!("{n}::new(.., height {h}) ok = {ok}"))?;
+                }
+            }
+            Ok(())
+        },
+    );
+
+    let cases = ctx.tier.pick(40_000, 300_000);
+    ctx.proptest(
+        "ids",
+        "per generated (height in {1,2,2^32,2^63,u64::MAX,..,random}, row/column in {0,1,2^15,65535,..,random}, namespace v0/v255/boundary) and each of the 5 id types: encode/decode/accessor/CID round trips, then corruptions: zeroed height, length -1/+1/0/other type's length, a bit flip at EVERY byte position, generated byte edits, height/namespace-version/namespace-prefix/random-namespace replacements, truncations/appends, each also wrapped in a well-formed CID; CIDs with wrong codec / multihash code / digest length / swapped codes / CIDv0 / other id types' CIDs. Non-trivial = every evaluated (type, bytes) pair (distinct by bytes and type)",
+        cases,
+        case_strategy,
+        |c, obs| {
+            for ty in ALL {
+                check_type(obs, ty, c)?;
+            }
+            Ok(())
+        },
+    );
 }
